@@ -440,7 +440,7 @@ func checkC19(c *Ctx, r *Report) {
 		if fd != nil {
 			stores, und := c.optionStores(fd)
 			got = strings.Join(stores, ", ")
-			ok = len(stores) == 1 && stores[0] == fld+"=x" && len(und) == 0
+			ok = len(stores) == 1 && (stores[0] == fld+"=x" || strings.HasSuffix(stores[0], "."+fld+"=x")) && len(und) == 0
 			if len(und) > 0 {
 				got += " (undecided: " + strings.Join(und, "; ") + ")"
 			}
@@ -450,7 +450,6 @@ func checkC19(c *Ctx, r *Report) {
 	r.note("textual equality of outputs with and without the options; that the observers cannot panic on programs that were not produced by the compiler (loaded bytecode)")
 	r.trust("index expressions inside the disassembler are in range for compiled programs by C10's well-formedness")
 }
-
 
 // optionStores interprets an option constructor Opt(x) and applies the Option it returns to a config: the stores
 // into config fields ("field=value", the argument rendered as x), in order.
